@@ -178,3 +178,52 @@ def leaf_names(t, acc=None):
             for c in t[1:]:
                 leaf_names(c, acc)
     return acc
+
+
+def meta_of(t):
+    for c in t[1:]:
+        if isinstance(c, dict) and "ip" in c:
+            return c
+    return {}
+
+
+def evaluate_state(t, code=None, rho=None):
+    """Evaluates an (optionally annotated) tree taken from a VM state of an all-constant program.
+    - an `sload` node denotes the value it loaded, an `unwritten` node the initial storage value 0;
+    - a `mod` node created at an ADDMOD / MULMOD instruction (same instruction pointer on the node and on its
+      add / mul child, and that byte of the code is 0x08 / 0x09) denotes the un-wrapped wide operation: that is how
+      the VM encodes those opcodes.
+    Returns an int, or None when the tree contains something that has no constant value (opaque leaf, hash...)."""
+    tag = t[0]
+    if tag == "k":
+        return cval(t)
+    if tag == "v" or tag == "cd":
+        return rho(t[1]) if rho else None
+    kids = children(t)
+    if tag == "sload" and len(kids) == 2:
+        return evaluate_state(kids[1], code, rho)
+    if tag == "unwritten":
+        return 0
+    if tag == "mod" and code is not None and len(kids) == 2:
+        ip = meta_of(t).get("ip")
+        inner = kids[0]
+        if ip is not None and ip < len(code) and code[ip] in (0x08, 0x09) and inner[0] in ("add", "mul") \
+                and meta_of(inner).get("ip") == ip:
+            ik = children(inner)
+            a, b = evaluate_state(ik[0], code, rho), evaluate_state(ik[1], code, rho)
+            n = evaluate_state(kids[1], code, rho)
+            if a is None or b is None or n is None:
+                return None
+            if n == 0:
+                return 0
+            return ((a + b) if code[ip] == 0x08 else (a * b)) % n
+    vals = [evaluate_state(k, code, rho) for k in kids]
+    if any(v is None for v in vals):
+        return None
+    if tag in BIN and len(kids) == 2:
+        return BIN[tag](vals[0], vals[1])
+    if tag in UN and len(kids) == 1:
+        return UN[tag](vals[0])
+    if tag == "signext" and len(kids) == 2:
+        return op_signextend(vals[0], vals[1])
+    return None
